@@ -592,7 +592,10 @@ class UncertainNumber:
         """power of two uncertain numbers"""
         from ..pba.operation import convert
 
-        return other ** convert(self.construct)
+        if is_un(other) != 0:
+            return NotImplemented
+        new_un = UncertainNumber.fromConstruct(other ** convert(self.construct))
+        return pass_down_units(self, other, operator.pow, new_un, reflected=True)
 
     # * ---------------------w/ dependency ---------------------#
 
@@ -796,6 +799,9 @@ def pass_down_units(a, b, ops, t, reflected=False):
     elif is_un(b) == 1:
         new_q = ops(a._physical_quantity, b._physical_quantity)
 
+    if not isinstance(new_q, Quantity):
+        # pint returns a plain number for ``number ** dimensionless quantity``
+        new_q = UncertainNumber.Q_(new_q)
     t.physical_quantity = new_q
     return t
 
